@@ -53,6 +53,7 @@ type backend struct {
 	take   func() string // canonical requests since the last call
 	setLag func(int)
 	fail   func()
+	failPlain func()
 	close  func()
 }
 
@@ -130,7 +131,7 @@ func newBackend(kind, table string, suffix bool, region string) (b *backend, obs
 		}
 		opts = append(opts, v1.WithDynamoDBRegionSuffix(suffix))
 		m := v1.NewDynamoDBMetastore(sess, opts...)
-		return &backend{ms: m, take: cl.Take, setLag: func(k int) { db.Lag = k }, fail: func() { db.FailNext = true }, close: func() {}},
+		return &backend{ms: m, take: cl.Take, setLag: func(k int) { db.Lag = k }, fail: func() { db.FailNext = true }, failPlain: func() { db.FailPlain = true }, close: func() {}},
 			"suffix=" + hx(m.GetRegionSuffix())
 	case kind == "ddb2":
 		db := fakeddb.New()
@@ -144,7 +145,7 @@ func newBackend(kind, table string, suffix bool, region string) (b *backend, obs
 		if err != nil {
 			return nil, "err"
 		}
-		return &backend{ms: m, take: cl.Take, setLag: func(k int) { db.Lag = k }, fail: func() { db.FailNext = true }, close: func() {}},
+		return &backend{ms: m, take: cl.Take, setLag: func(k int) { db.Lag = k }, fail: func() { db.FailNext = true }, failPlain: func() { db.FailPlain = true }, close: func() {}},
 			"suffix=" + hx(m.GetRegionSuffix())
 	}
 	return nil, "bad-op"
@@ -211,6 +212,9 @@ func errClass(err error) string {
 		return "table"
 	case fakeddb.Internal:
 		return "injected"
+	}
+	if strings.Contains(err.Error(), fakeddb.Transport) {
+		return "injected" // a request that failed below the API level is a failed request all the same
 	}
 	if strings.Contains(err.Error(), fakeddb.Validation) {
 		return "validation"
@@ -312,6 +316,13 @@ func (r *run) exec(line string) {
 		case f[0] == "fault" && len(f) == 1:
 			r.b.fail()
 			return "ok"
+		case f[0] == "fault" && len(f) == 2 && f[1] == "plain":
+			// the next request fails with a plain error value (no AWS error code): timeouts, wrappers
+			r.b.fail()
+			if r.b.failPlain != nil {
+				r.b.failPlain()
+			}
+			return "ok"
 		}
 		return "bad-op"
 	}()
@@ -409,7 +420,11 @@ func randomCases(rng *prng.R, cases, length int, only string) {
 			case 3:
 				r.exec(fmt.Sprintf("lag %d", rng.Intn(4)))
 			case 4:
-				r.exec("fault")
+				if rng.Intn(2) == 0 {
+					r.exec("fault plain")
+				} else {
+					r.exec("fault")
+				}
 			}
 		}
 		// closing sweep: every key is read back, every id asked for its latest
@@ -442,9 +457,14 @@ func exhaustive(maxLen int) {
 	kinds := []string{"memory", "sql:default", "sql:mysql", "sql:postgres", "sql:oracle", "ddb1", "ddb2"}
 	r := &run{}
 	seq := make([]int, maxLen)
+	base := alpha
 	for _, kind := range kinds {
 		for i := range seq {
 			seq[i] = 0
+		}
+		alpha := base
+		if strings.HasPrefix(kind, "ddb") {
+			alpha = append(append([]string(nil), base...), "fault plain")
 		}
 		for {
 			r.exec(fmt.Sprintf("be %s table=- suffix=0 region=us-west-2", kind))
